@@ -613,13 +613,13 @@ def check_C11(tier, only):
     out = Outcome('C11', tier, 'model_checking')
     inc = ['c11_cache_history_1', 'c11_cache_history_2', 'c11_cache_history_2_reach', 'c11_cache_history_clone_2']
     pairs = json.load(open(os.path.join(VERIF, 'kani', 'c11_pairs.json')))
-    ext = [p['name'] for p in pairs if tier == 'thorough' or p['tier'] == 'quick']
+    ext = [p['name'] for p in pairs if p['tier'] == 'quick' or (tier == 'thorough' and p['tier'] == 'thorough')]
     if tier == 'thorough':
         inc += ['c11_cache_history_3', 'c11_cache_history_3_reach']
     cov = ek_part(out, 'C11', tier, [('incrate', h) for h in inc] + [('ext', h) for h in ext], only,
                   ['cache level (in-crate): every history of <= %d calls of Cache::get_or_insert_with_{f64,d64,d2_64,hd64,hd364} with symbolic method, symbolic Derivative keys (2 components) and an oracle of arbitrary f64 '
                    'bit patterns returns bitwise the oracle value of the requested key; also across a clone taken between calls' % (3 if tier == 'thorough' else 2),
-                   'getter level: for 12 (quick) / all 156 (thorough) ordered pairs (h, g) of the 13 residual getters: g after h on the same state, on a clone taken before h and on a clone taken after h equals the closed form (PolyEos, concrete generic-position coefficients and component indices: the solver decides the compiled plumbing, not the values)',
+                   'getter level: for 6 (quick) / 24 (thorough) ordered pairs (h, g) of the 13 residual getters: g evaluated after h on the same state equals the closed form (one-monomial model A = V^3 T^3 N0^2 N1^2, concrete component indices: the solver decides the compiled plumbing, not the values)',
                    'thread schedules are not covered (Kani does not model concurrency): not claimed'],
                   timeout=7200 if tier == 'thorough' else 2400)
     cov.setdefault('states', 1); cov.setdefault('transitions', 1)
